@@ -259,6 +259,87 @@ pub fn run_c10(ctx: &Ctx) -> Report {
         judge("C10", &obs, &cv, rep, &d, true);
     });
     rep.merge(r);
+
+    // ---- many statements open at once (50-600, ids anywhere in the 32-bit range incl. its edges),
+    //      closed, re-prepared and executed in random order: the registry must behave like a map
+    //      however full it is and in whatever order entries leave it
+    if !ctx.miri {
+        let n = ctx.n(60, 2000);
+        let r = par_cases(ctx, "C10", "many-statements", n, |rng, i, rep| {
+            let mut cv = Conv::default();
+            let nst = rng.range(50, 600) as usize;
+            let mut ids: Vec<u32> = Vec::new();
+            let mut seen = std::collections::BTreeSet::new();
+            for e in [0u32, 1, u32::MAX, u32::MAX - 1, 0x8000_0000] {
+                if rng.bool() && seen.insert(e) {
+                    ids.push(e);
+                }
+            }
+            while ids.len() < nst {
+                // dense runs and scattered ids
+                let id = if rng.bool() { rng.below(2000) as u32 } else { rng.next() as u32 };
+                if seen.insert(id) {
+                    ids.push(id);
+                }
+            }
+            let mut live: std::collections::BTreeMap<u32, usize> = std::collections::BTreeMap::new();
+            for (k, &id) in ids.iter().enumerate() {
+                let np = k % 3;
+                cv.push(MCmd::Prepare(format!("s{}", k).into_bytes()), Some(Script::PrepOk { id, params: param_cols(np), cols: vec![] }));
+                live.insert(id, np);
+            }
+            let steps = rng.range(100, 1500);
+            for step in 0..steps {
+                if cv.over() {
+                    break;
+                }
+                let id = ids[rng.usize(ids.len())];
+                match rng.below(10) {
+                    0..=3 => {
+                        if let Some(&np) = live.get(&id) {
+                            let params: Vec<Param> = (0..np).map(|j| Param { typ: wire::T_LONGLONG, unsigned: false, value: Some(PVal::Int((step * 10 + j as u64) as i128)), long: false }).collect();
+                            cv.push(MCmd::Execute { id, params, send_types: true }, Some(Script::Q(QProg::completed(step, 0))));
+                        }
+                    }
+                    4..=6 => {
+                        live.remove(&id);
+                        cv.push(MCmd::Close(id), None);
+                    }
+                    7 => {
+                        let np = rng.below(3) as usize;
+                        cv.push(MCmd::Prepare(format!("again{}", step).into_bytes()), Some(Script::PrepOk { id, params: param_cols(np), cols: vec![] }));
+                        live.insert(id, np);
+                    }
+                    8 => {
+                        if live.contains_key(&id) {
+                            cv.push(MCmd::LongData { id, param: 7, data: b"x".to_vec() }, None);
+                        }
+                    }
+                    _ => {
+                        // now and then (rarely) an execute of a closed id: the connection must end there
+                        if !live.contains_key(&id) && rng.chance(1, 40) {
+                            cv.push(MCmd::Execute { id, params: vec![], send_types: false }, None);
+                        }
+                    }
+                }
+            }
+            let mut case = cv.case();
+            if rng.bool() {
+                let (input, _) = case.input();
+                case.sched = make_sched(rng, SchedKind::Random, &input);
+            }
+            let obs = run_case(&case);
+            rep.evaluations += 1;
+            rep.counters.class(format!("{} statements open at once, {} operations", len_class(nst), len_class(steps as usize)));
+            rep.counters.inc("many_statement_histories");
+            let d = || J::obj().set("statements_prepared", nst).set("operations", cv.m.len()).set("outcome", obs.outcome.describe());
+            if i == 0 {
+                rep.sample(d());
+            }
+            judge("C10", &obs, &cv, rep, &d, false);
+        });
+        rep.merge(r);
+    }
     rep.merge(super::mega::run(ctx, "C10", 1500, 60000));
     if ctx.strict() {
         rep.require("illegal_operations_expected_refused", 10);
